@@ -208,7 +208,7 @@ class Rows:
     pass
 
 
-def measure_rows(c, max_phases=2000):
+def measure_rows(c, max_phases=2000, max_cost=8e6):
     """Rows of one implementation period of the real resampler for a rational configuration.
     Returns a Rows object, or a dict {"skipped": reason}."""
     info, _ = run(c)
@@ -229,6 +229,9 @@ def measure_rows(c, max_phases=2000):
     if MP > max_phases:
         return {"skipped": "M_P=%d above the phase cap %d" % (MP, max_phases), "info": info}
     wlo, whi = extents(c, L, M)
+    cost = LP * ((wlo + whi) * 2 + 40) * M / L        # size of the row table L_P x taps (memory and FFT work scale with it)
+    if cost > max_cost:
+        return {"skipped": "row table L_P x taps = %.3g above the cost cap %.3g" % (cost, max_cost), "info": info}
     guard = 1.0
     for attempt in range(3):
         Wlo, Whi = int(wlo * (1 + guard)) + 8, int(whi * (1 + guard)) + 8
@@ -290,22 +293,35 @@ def coef_at(R, w):
     return S * np.exp(-1j * np.outer(R.frac, w))
 
 
-def coef_grid(R, wlo, whi, oversample=16):
-    """c_r on the FFT grid restricted to [wlo, whi] (rad / input frame).  Grid: N_fft >= oversample * row length, i.e.
-    >= `oversample` points per side-lobe period of every row's transform.  Returns (w, C[LP, nbins])."""
+def coef_grid(R, wlo, whi, oversample=16, extra=()):
+    """c_r on the FFT grid restricted to [wlo, whi] (rad / input frame), followed by the exact frequencies `extra`.
+    Grid: N_fft >= oversample * row length, i.e. >= `oversample` points per side-lobe period of every row's transform.
+    Returns (w, C[LP, nbins], nfft)."""
     nfft = 1 << int(math.ceil(math.log2(oversample * R.W)))
     q0 = int(math.ceil(wlo / (2 * math.pi) * nfft - 1e-9))
     q1 = int(math.floor(whi / (2 * math.pi) * nfft + 1e-9))
     q1 = min(q1, nfft // 2)
-    if q1 < q0:
-        return np.zeros(0), np.zeros((R.LP, 0), dtype=complex), nfft
-    w = 2 * math.pi * np.arange(q0, q1 + 1) / nfft
+    ng = max(0, q1 - q0 + 1)
+    extra = np.asarray(extra, dtype=float)
+    w = np.concatenate([2 * math.pi * np.arange(q0, q0 + ng) / nfft, extra])
     C = np.empty((R.LP, len(w)), dtype=complex)
-    step = max(1, (1 << 22) // nfft)
-    for a in range(0, R.LP, step):
-        F = np.fft.rfft(R.A[a:a + step], nfft, axis=1)[:, q0:q1 + 1]       # sum_j A[j] e^{-i w j}
-        S = np.conj(F) * np.exp(-1j * w * R.Tlo)[None, :]                    # sum_j A[j] e^{+i w (j - Tlo)}
-        C[a:a + step] = S * np.exp(-1j * np.outer(R.frac[a:a + step], w))
+    if len(extra):
+        C[:, ng:] = coef_at(R, extra)
+    if ng:
+        # e^{-i frac_r w_q} with q = q0 + a*B + b factorised into two small tables (one complex product per element)
+        B = 256
+        na = (ng + B - 1) // B
+        w_hi = 2 * math.pi * (q0 + B * np.arange(na)) / nfft
+        w_lo = 2 * math.pi * np.arange(B) / nfft
+        base = np.exp(-1j * w[:ng] * R.Tlo)
+        step = max(1, (1 << 22) // nfft)
+        for a in range(0, R.LP, step):
+            F = np.fft.rfft(R.A[a:a + step], nfft, axis=1)[:, q0:q0 + ng]     # sum_j A[j] e^{-i w j}
+            fr = R.frac[a:a + step]
+            E1 = np.exp(-1j * np.outer(fr, w_hi))
+            E2 = np.exp(-1j * np.outer(fr, w_lo))
+            ph = (E1[:, :, None] * E2[:, None, :]).reshape(len(fr), na * B)[:, :ng]
+            C[a:a + step, :ng] = np.conj(F) * base[None, :] * ph               # sum_j A[j] e^{+i w (j - Tlo)} e^{-i w frac_r}
     return w, C, nfft
 
 
@@ -323,31 +339,32 @@ def passband_metrics(R):
     bits = bits_of(R.info)
     linear = abs(R.info["q"]["phase"] - 50) < 1e-9
     wp, ws = bands(R)
-    w, C, nfft = coef_grid(R, 0.0, wp)
-    we = np.array([wp])
-    Ce = coef_at(R, we)
-    w = np.concatenate([w, we])
-    C = np.concatenate([C, Ce], axis=1)
-    G = C.mean(axis=0)
-    ref = np.abs(G) if linear else G
-    dev = np.abs(C - ref[None, :])
-    res = dev.max(axis=0)                              # peak of everything but the wanted tone, per frequency
+    w, C, nfft = coef_grid(R, 0.0, wp, extra=[wp])
+    nb = len(w)
+    res = np.empty(nb)
+    resr = np.empty(nb, dtype=int)
+    G = np.empty(nb, dtype=complex)
+    img = np.zeros(nb)
+    blk = max(1, (1 << 22) // R.LP)
+    for a in range(0, nb, blk):                        # column blocks: bounded temporaries
+        Cb = C[:, a:a + blk]
+        Gb = Cb.mean(axis=0)
+        ref = np.abs(Gb) if linear else Gb
+        dev = np.abs(Cb - ref[None, :])
+        res[a:a + blk] = dev.max(axis=0)               # peak of everything but the wanted tone, per frequency
+        resr[a:a + blk] = dev.argmax(axis=0)
+        G[a:a + blk] = Gb
+        if R.LP > 1:                                   # image / alias lines of the period: DFT over r
+            img[a:a + blk] = np.abs(np.fft.fft(Cb, axis=0)[1:]).max(axis=0) / R.LP
     iw = int(res.argmax())
     gdb = 20 * np.log10(np.abs(G))
     ig = int(np.abs(gdb).argmax())
-    # image / alias lines of the period: DFT over r
-    Lines = np.fft.fft(C, axis=0) / R.LP
-    if R.LP > 1:
-        img = np.abs(Lines[1:]).max(axis=0)
-        ii = int(img.argmax())
-        img_max, img_w = float(img[ii]), float(w[ii])
-    else:
-        img_max, img_w = 0.0, 0.0
+    ii = int(img.argmax())
     rows_dc = np.abs(C[:, 0] - 1).max() if w[0] == 0 else float("nan")
-    return dict(bits=bits, linear=linear, nfft=nfft, nbins=len(w), wp=wp,
-                res=float(res[iw]) + R.tailmass, res_w=float(w[iw]), res_r=int(dev[:, iw].argmax()),
+    return dict(bits=bits, linear=linear, nfft=nfft, nbins=nb, wp=wp,
+                res=float(res[iw]) + R.tailmass, res_w=float(w[iw]), res_r=int(resr[iw]),
                 gain_db=float(gdb[ig]), gain_w=float(w[ig]), phase_dev=float(np.abs(G - np.abs(G)).max()),
-                img=img_max + R.tailmass, img_w=img_w, row_sum_dev=float(rows_dc), G0=complex(G[0]))
+                img=float(img[ii]) + R.tailmass, img_w=float(w[ii]), row_sum_dev=float(rows_dc), G0=complex(G[0]))
 
 
 def stopband_metrics(R):
@@ -355,10 +372,7 @@ def stopband_metrics(R):
     wp, ws = bands(R)
     if ws >= math.pi * (1 - 1e-12):
         return None
-    w, C, nfft = coef_grid(R, ws, math.pi)
-    we = np.array([ws])
-    w = np.concatenate([we, w])
-    C = np.concatenate([coef_at(R, we), C], axis=1)
+    w, C, nfft = coef_grid(R, ws, math.pi, extra=[ws])
     lvl = np.abs(C).max(axis=0)
     i = int(lvl.argmax())
     return dict(nfft=nfft, nbins=len(w), ws=ws, lvl=float(lvl[i]) + R.tailmass, lvl_w=float(w[i]), lvl_r=int(np.abs(C[:, i]).argmax()))
@@ -545,9 +559,10 @@ def pick_any(rng, n):
 # ------------------------------------------------------------------ pool jobs (top level: picklable)
 
 def job_rows(args):
-    c, max_phases = args
+    c, max_phases = args[0], args[1]
+    max_cost = args[2] if len(args) > 2 else 8e6
     try:
-        R = measure_rows(c, max_phases)
+        R = measure_rows(c, max_phases, max_cost)
         if isinstance(R, dict):
             d = {"cfg": c, "label": cfg_label(c), "skipped": R["skipped"]}
             if "info" in R:
